@@ -459,18 +459,46 @@ def used_blocks(scan):
 
 
 def lock_is_free(arr):
+    """is <first content>.lock flock'ed by some process?  Read passively from /proc/locks (taking the lock ourselves to
+    test it would race with the commands under test, and with children forked by other harness threads)."""
     p = arr.content_files[0] + '.lock'
-    if not os.path.exists(p):
-        return True
-    f = open(p, 'r')
     try:
-        fcntl.flock(f, fcntl.LOCK_EX | fcntl.LOCK_NB)
-        fcntl.flock(f, fcntl.LOCK_UN)
+        st = os.stat(p)
+    except FileNotFoundError:
         return True
+    key = '%02x:%02x:%d' % (os.major(st.st_dev), os.minor(st.st_dev), st.st_ino)
+    try:
+        for ln in open('/proc/locks'):
+            t = ln.split()
+            if len(t) >= 6 and t[1] == 'FLOCK' and t[5] == key:
+                return False
     except OSError:
-        return False
-    finally:
-        f.close()
+        pass
+    return True
+
+
+def hold_lock(arr):
+    """take the lock exactly as the tool does (util.c lock_lock: open O_CREAT|O_TRUNC|O_WRONLY 0600, flock LOCK_EX|LOCK_NB) in a
+    helper process; returns the process (terminate it to release the lock)"""
+    import subprocess
+    code = ("import os,fcntl,sys\n"
+            "fd=os.open(sys.argv[1], os.O_CREAT|os.O_TRUNC|os.O_WRONLY, 0o600)\n"
+            "fcntl.flock(fd, fcntl.LOCK_EX|fcntl.LOCK_NB)\n"
+            "print('held', flush=True)\n"
+            "sys.stdin.read()\n")
+    pr = subprocess.Popen([sys.executable, '-c', code, arr.content_files[0] + '.lock'], stdin=subprocess.PIPE, stdout=subprocess.PIPE)
+    if pr.stdout.readline().strip() != b'held':
+        pr.kill()
+        raise RuntimeError('could not take the lock')
+    return pr
+
+
+def release_lock(pr):
+    try:
+        pr.stdin.close()
+    except Exception:
+        pass
+    pr.wait(timeout=10)
 
 
 class Pre:
